@@ -122,7 +122,7 @@ def census(fn: ast.FunctionDef, fold: Folder, helper_sites: dict[str, list[dict]
             f = ast.unparse(node.func)
             if helper_sites and f in helper_sites:
                 for hs in helper_sites[f]:
-                    sites.append(dict(hs, line=node.lineno, col=node.col_offset, via=f))
+                    sites.append(dict(hs, line=node.lineno, col=node.col_offset, via=f, ordnode=node))
             elif f in STRUCT_FUNCS:
                 if not node.args:
                     raise TranslateError(f'{fn.name}: line {node.lineno}: {f} without format')
@@ -150,7 +150,20 @@ def census(fn: ast.FunctionDef, fold: Folder, helper_sites: dict[str, list[dict]
         k = layout_key(node)
         if k is not None and k != 'LEAF_AREA_OFFSET':
             sites.append({'line': node.lineno, 'col': node.col_offset, 'call': 'layout', 'desc': ('key', k), 'node': node, 'owner': fn})
-    sites.sort(key=lambda s: (s['line'], s['col']))
+    # order of appearance in the (normalised) tree, not line numbers: a branch moved by the normaliser keeps its old lines
+    order: dict[int, int] = {}
+
+    def number(n: ast.AST) -> None:
+        order[id(n)] = len(order)
+        for c in ast.iter_child_nodes(n):
+            number(c)
+    number(fn)
+    for st in sites:
+        st['ord'] = order.get(id(st.get('ordnode', st.get('node'))), None)
+    if all(st['ord'] is not None for st in sites):
+        sites.sort(key=lambda s: s['ord'])
+    else:
+        sites.sort(key=lambda s: (s['line'], s['col']))
     return sites
 
 
@@ -453,7 +466,7 @@ def attrs_fields(tree: ast.Module, cls: str) -> list[str]:
 
 
 # ------------------------------------------------------------------------------------------------ Ns guards
-def find_guard(fn: ast.FunctionDef, call: ast.Call, exprs: list[str]) -> tuple[int, int] | None:
+def find_guard(fn: ast.FunctionDef, call: ast.Call, exprs: list[str], fold: 'Folder | None' = None) -> tuple[int, int] | None:
     """A dominating `if len(E) <cmp> K: raise ...` before `call` where E is one of the packed expressions.
     Returns (min_len, max_len) admitted by the guard(s)."""
     parents: dict[int, ast.AST] = {}
@@ -487,13 +500,18 @@ def find_guard(fn: ast.FunctionDef, call: ast.Call, exprs: list[str]) -> tuple[i
         if not isinstance(st, ast.If) or st.orelse or not st.body or not isinstance(st.body[-1], ast.Raise):
             continue
         t = st.test
-        if not (isinstance(t, ast.Compare) and len(t.ops) == 1 and isinstance(t.left, ast.Call)
-                and ast.unparse(t.left.func) == 'len' and isinstance(t.comparators[0], ast.Constant)
-                and isinstance(t.comparators[0].value, int)):
+        if not (isinstance(t, ast.Compare) and len(t.ops) == 1 and isinstance(t.left, ast.Call) and ast.unparse(t.left.func) == 'len'):
+            continue
+        # the bound: a literal, or a constant expression over module-level constants (`LIMIT`, `LIMIT - 1`)
+        try:
+            k = fold.fold(t.comparators[0]) if fold is not None else (t.comparators[0].value if isinstance(t.comparators[0], ast.Constant) else None)
+        except (KeyError, TranslateError):
+            k = None
+        if type(k) is not int:
             continue
         if ast.unparse(t.left.args[0]) not in exprs:
             continue
-        k, op = t.comparators[0].value, t.ops[0]
+        op = t.ops[0]
         if isinstance(op, ast.Gt):
             hi = k if hi is None else min(hi, k)
         elif isinstance(op, ast.GtE):
@@ -686,7 +704,7 @@ def translate() -> tuple[str, dict]:
                     raise TranslateError(f'{fn}: line {s["line"]}: Ns format in a writer but no pack call found for it')
                 continue
             for call in calls:
-                g = find_guard(f, call, packed_exprs(f, call))
+                g = find_guard(f, call, packed_exprs(f, call), fold)
                 for lname, w in widths:
                     nm = f'{fn}:{s["line"]}:{lname}'
                     ns_lines.append(f'  ({coq_s(nm)}, {w}%nat, {"None" if g is None else "Some (%d%%nat, %d%%nat)" % g})')
